@@ -7,7 +7,10 @@ worktree of /repo's HEAD with the change applied (PYTHONPATH), recording which c
 import json, os, shutil, subprocess, sys, time
 pid, n = sys.argv[1], sys.argv[2]
 checks = (sys.argv[3] if len(sys.argv) > 3 else pid).split(",")
-src = f"/tmp/seed_{pid}/out/{n}"
+# SEED_ROUND=k (k >= 2): the change comes from /tmp/seed<k>_<PID>/out/<n> and is stored as seeded/<PID>-<n + 2(k-1)>
+rnd = int(os.environ.get("SEED_ROUND", "1"))
+src = f"/tmp/seed_{pid}/out/{n}" if rnd == 1 else f"/tmp/seed{rnd}_{pid}/out/{n}"
+n = str(int(n) + 2 * (rnd - 1))
 dst = f"/verif/seeded/{pid}-{n}"
 os.makedirs(dst, exist_ok=True)
 for f in ("patch.diff", "demo.py", "README.md"):
